@@ -1111,11 +1111,31 @@ class ReducedDensityMatrixPropagator(MatrixData, Saveable):
         else:
             HH = self.Hamiltonian.data
             
+        # (the index runs over the time axis on which the tensor is known)
+        sbi = self.RelaxationTensor.SystemBathInteraction
         if self.RelaxationTensor._has_cutoff_time:
             cutoff_indx = \
-            self.TimeAxis.nearest(self.RelaxationTensor.cutoff_time)
+            sbi.TimeAxis.nearest(self.RelaxationTensor.cutoff_time)
         else:
-            cutoff_indx = self.TimeAxis.length
+            cutoff_indx = sbi.TimeAxis.length
+
+        #
+        # The operators are known on the time axis of the bath; as in the 
+        # tensor form, every refinement step reads them at its own time
+        #
+        sysstep = sbi.TimeAxis.step
+        Nref_max = round(self.TimeAxis.step/sysstep)
+        # the propagation step has to be a whole multiple of the step on
+        # which the tensor is known (a rounded ratio of 0 would stop the time)
+        if (Nref_max < 1) or \
+           (abs(Nref_max*sysstep - self.TimeAxis.step) > 1.0e-6*sysstep):
+            raise Exception("The time step of the propagation ("
+                            +str(self.TimeAxis.step)+" fs) has to be a whole"
+                            +" multiple of the time step of the relaxation"
+                            +" tensor ("+str(sysstep)+" fs)")
+        if Nref_max % self.Nref != 0:
+            raise Exception("Incompatible number of refinement steps")
+        stride = Nref_max//self.Nref
 
         Km = self.RelaxationTensor.Km
         # Hermitian conjugates of the operators; the plain transposition is
@@ -1130,11 +1150,11 @@ class ReducedDensityMatrixPropagator(MatrixData, Saveable):
 
         for ii in range(1, self.Nt): 
 
-            Lm = self.RelaxationTensor.Lm[indxR,:,:,:]
-            Ld = self.RelaxationTensor.Ld[indxR,:,:,:]
-       
             for jj in range(0, self.Nref):
                 
+                Lm = self.RelaxationTensor.Lm[indxR,:,:,:]
+                Ld = self.RelaxationTensor.Ld[indxR,:,:,:]
+       
                 for ll in range(1, L+1):
                     
                     rhoY =  - _COM(HH, ll, self.dt,rho1) 
@@ -1158,10 +1178,12 @@ class ReducedDensityMatrixPropagator(MatrixData, Saveable):
                     rho2 = rho2 + rho1
                 rho1 = rho2    
                 
+                # the operators are kept at their last computed point once
+                # the cut-off (or the end of their time axis) is reached
+                indxR = min(indxR + stride, cutoff_indx - 1)
+                
             pr.data[indx,:,:] = rho2 
             indx += 1             
-            if indxR < cutoff_indx-1:                      
-                indxR += 1             
 
         if self.Hamiltonian.has_rwa:
             pr.is_in_rwa = True
